@@ -291,10 +291,12 @@ def check_c06(ctx):
 
 def check_c07(ctx):
     q = ctx.tier == "quick"
-    costs = (boxes.COSTS8 + boxes.FRAC) if q else (boxes.COSTS12 + boxes.FRAC)
+    # expensive / lopsided disks: compared with the recurrences and the order relations only
+    extra = [(1, 1, 5, 5), (1, 1, 6, 6), (1, 1, 10, 1), (1, 1, 15, 15), (2, 1, 9, 2)]
+    costs = ((boxes.COSTS8 + boxes.FRAC) if q else (boxes.COSTS12 + boxes.FRAC)) + extra
     # the search box shrinks for the vectors added later (one of wd/rd zero: n - 1; fractional: n - 3):
     # their finer cost granularity multiplies the distinct search states
-    shrink = {c: (0 if c in boxes.COSTS6 else 3 if len(c) > 4 else 1) for c in costs}
+    shrink = {c: (0 if c in boxes.COSTS6 else 99 if c in extra else 3 if len(c) > 4 else 1) for c in costs}
     if q:
         hbox = dict(nmax=8, cms=(1, 2), cds=(0, 1, 2))
         dn, rn = 9, 11
@@ -316,10 +318,12 @@ def check_c07(ctx):
                     cfgs.append(mkcfg("Revolve", max_n=n, ram=cm, **boxes.cv(c)))
     # larger box for the order relations only
     big_n = 20 if q else 40
-    for n in range(max(hbox["nmax"], dn, rn) + 1, big_n + 1, 1 if q else 1):
+    for n in range(1, big_n + 1):
         for c in costs:
+            if n <= max(hbox["nmax"], dn, rn) and c not in extra:
+                continue
             for cm in (1, 2, 3):
-                for cd in (0, 1, 2, 4):
+                for cd in (0, 1, 2, 3, 4):
                     cfgs.append(mkcfg("HRevolve", max_n=n, ram=cm, disk=cd, **boxes.cv(c)))
                 for cls in ("Revolve", "DiskRevolve", "PeriodicDiskRevolve"):
                     cfgs.append(mkcfg(cls, max_n=n, ram=cm, **boxes.cv(c)))
